@@ -40,7 +40,7 @@ STREAM = {
     "C05": ("c05", ["--cases", 400, "--cost", 500000], ["--cases", 4000, "--cost", 8000000]),
     "C15": ("c15", ["--cases", 600, "--cost", 800000], ["--cases", 6000, "--cost", 15000000, "--bigshare", 20]),
     "C14": ("c14", ["--cases", 300, "--cost", 300000], ["--cases", 3000, "--cost", 5000000]),
-    "C13": ("c13", ["--cases", 400, "--cost", 400000], ["--cases", 3000, "--cost", 6000000, "--bigshare", 10]),
+    "C13": ("c13", ["--cases", 500, "--cost", 900000, "--frames", 2], ["--cases", 4000, "--cost", 12000000, "--bigshare", 10]),
 }
 
 
@@ -716,10 +716,148 @@ def check_c02(prop, tier, seed):
     return res
 
 
+# --------------------------------------------------------------------------- C16 (parser robustness)
+def check_c16(prop, tier, seed):
+    import shutil, re
+    res = Result()
+    lem = vlib.run_tlc("CrcLemmas.tla", "CrcLemmas.cfg", tag="crclem", workers=1, timeout=600)
+    tlc_ok(lem, "CrcLemmas (burst detection of CRC-8 / CRC-16)")
+    out = os.path.join(vlib.WORK, f"{prop}-{tier}")
+    shutil.rmtree(out, ignore_errors=True)
+    summ = vlib.run_fv(["mutate", "--tier", tier, "--seed", seed, "--out", out, "--shards", vlib.JVMS], timeout=3000)
+    verdicts, states, trans, _ = vlib.run_trace_shards("TraceMut.tla", "TraceMut.cfg", summ["files"], tagp=prop, timeout=3000)
+    seen = set()
+    ok = 0
+    for vid, (v, msgs) in sorted(verdicts.items()):
+        mine = sorted(m for m in msgs if m.startswith(("C16:", "harness:")))
+        if not mine:
+            ok += 1
+            continue
+        key = f"{prop} " + re.sub(r"\d+", "#", mine[0])[:160]
+        if key in seen:
+            continue
+        seen.add(key)
+        res.failures.append(dict(key=key, what=f"{vid}: {mine[0]}", name=vid,
+                                 replay=dict(property=prop, kind="c16", tier=tier, seed=seed, id=vid, what=mine)))
+    classes = {}
+    for s_ in summ["summary"]:
+        c = classes.setdefault(s_["class"], dict(total=0, err=0, ok=0, panic=0))
+        for k in ("total", "err", "ok", "panic"):
+            c[k] += s_[k]
+    res.coverage = dict(states=lem["states"] + states, transitions=lem["generated"] + trans, traces_validated_against_impl=ok,
+                        evaluations=summ["mutants"], distinct_nontrivial=summ["mutants"], per_class=classes, streams=summ["streams"],
+                        rule="for each of the small emitted streams (one per subframe kind / channel assignment flavour): EVERY single-bit flip, every "
+                             "2..8-bit burst pattern with both end bits set at every bit position inside the frames (quick tier: every 5th), truncation at "
+                             "EVERY byte, and seeded random byte strings / overwrites; all mutants are distinct; the parser's outcome is tallied under "
+                             "catch_unwind, every panic and every accepted mutant goes to TraceMut.tla, where TLC rebuilds the mutated bytes, decodes them "
+                             "with FlacFormat and compares the audio; CrcLemmas.tla (65 535 + 255 remainders) shows that every such alteration changes the CRC",
+                        samples=summ["summary"][:4], exhaustive=(tier == "thorough"))
+    res.assumptions = ["random byte strings and truncations are judged for panics only (the property's acceptance clause is about alterations of up to 8 bits inside a frame)"]
+    return res
+
+
+# --------------------------------------------------------------------------- C10 (history independence)
+def check_c10(prop, tier, seed):
+    import shutil, re
+    res = Result()
+    d = os.path.join(vlib.WORK, "histgen")
+    os.makedirs(d, exist_ok=True)
+    cfg = os.path.join(d, "gen.cfg")
+    maxlen = 3
+    open(cfg, "w").write('SPECIFICATION Spec\nCONSTANTS\n  Alphabet = {"A","B","C","D","E","F","G","H","I","J","K","L"}\n'
+                         f'  MaxLen = {maxlen}\n  KeyMode = "exact"\nINVARIANTS CacheCoherent\nCHECK_DEADLOCK FALSE\n')
+    hist = os.path.join(d, "hist10.ndjson")
+    g = vlib.run_tlc("HistoryGen.tla", cfg, dict(OUT10=hist), tag="histgen", workers=4, xmx="4g", timeout=1200)
+    tlc_ok(g, "HistoryGen (histories + WindowCache model with the exact key)")
+    out = os.path.join(vlib.WORK, f"{prop}-{tier}")
+    shutil.rmtree(out, ignore_errors=True)
+    summ = vlib.run_fv(["history", "--histories", hist, "--out", out, "--seed", seed, "--shards", vlib.JVMS,
+                        "--random", 20000 if tier == "thorough" else 500], timeout=3000)
+    verdicts, states, trans, _ = vlib.run_trace_shards("TraceHistory.tla", "TraceHistory.cfg", summ["files"], tagp=prop, timeout=3000)
+    ok, seen = 0, set()
+    for vid, (v, msgs) in sorted(verdicts.items()):
+        if v == "pass":
+            ok += 1
+            continue
+        m0 = msgs[0]
+        key = f"{prop} " + re.sub(r" as step \d+ of history .*? gives", " gives", m0)
+        if key in seen:
+            continue
+        seen.add(key)
+        res.failures.append(dict(key=key, what=f"{vid}: {m0}", name=vid, replay=dict(property=prop, kind="c10", tier=tier, seed=seed, what=msgs)))
+    res.coverage = dict(states=g["states"] + states, transitions=g["generated"] + trans, traces_validated_against_impl=ok,
+                        evaluations=summ["calls"], histories=summ["histories"], distinct_nontrivial=summ["histories"],
+                        rule="TLC generates EVERY history of length <= 3 over an alphabet of 12 calls (stream-level mono/stereo/5-channel at block sizes "
+                             "32/64/96/256/4096 and widths 8/12/16/20/24, rectangular / Tukey(0) / Tukey(1e-6) / Tukey(0.4) / Tukey(0.4+2^-20) windows at one "
+                             "block size, BitCount, max_parameter 0, frame-level, parse + re-serialise through both sinks) = 1884 histories, plus seeded "
+                             "random histories of length 8; each history runs on its own long-lived thread, each call also alone on two fresh threads; "
+                             "TraceHistory.tla (stateless machine) rejects a result that differs from the fresh-thread result. distinct = histories",
+                        samples=[["E", "F"], ["C", "A", "B"]], exhaustive=True)
+    res.assumptions = ["the alphabet's calls are representative of the thread-local scratch state (fixed-LPC planes, QLPC buffer, mid/side buffer, window cache, "
+                       "Rice finder, CRC sinks)"]
+    return res
+
+
+# --------------------------------------------------------------------------- C20 (feature independence)
+FEATURE_SETS = [("none", ""), ("default", "par,log,serde"), ("default+decode", "par,log,serde,decode"),
+                ("default+decode+experimental", "par,log,serde,decode,experimental")]
+
+
+def check_c20(prop, tier, seed):
+    import shutil, subprocess
+    res = Result()
+    h20 = os.path.join(vlib.VERIF, "harness20")
+    out = os.path.join(vlib.WORK, f"{prop}-{tier}")
+    shutil.rmtree(out, ignore_errors=True)
+    os.makedirs(out, exist_ok=True)
+    cases = 2000 if tier == "thorough" else 200
+    lines = []
+    for name, feats in FEATURE_SETS:
+        tdir = os.path.join(h20, "target-" + name.replace("+", "_"))
+        env = dict(os.environ, CARGO_NET_OFFLINE="true")
+        p = subprocess.run(["cargo", "build", "--release", "--offline", "--no-default-features", "--features", feats, "--target-dir", tdir],
+                           cwd=h20, env=env, stdout=subprocess.PIPE, stderr=subprocess.STDOUT, text=True)
+        if p.returncode != 0:
+            log(p.stdout[-3000:])
+            raise ToolError(f"build with features [{feats}] failed")
+        r = subprocess.run([os.path.join(tdir, "release", "fv20"), name, str(cases), "0"], stdout=subprocess.PIPE, text=True, timeout=1800)
+        if r.returncode != 0:
+            raise ToolError(f"fv20 [{name}] exited with {r.returncode}")
+        got = [json.loads(x) for x in r.stdout.splitlines() if x.strip()]
+        # multi-thread cases only exist where the par feature is compiled in
+        lines += [g for g in got if not (g["mt"] and "par" not in feats)]
+    trace = os.path.join(out, "feat.ndjson")
+    with open(trace, "w") as fh:
+        for g in lines:
+            g.pop("bytes", None)
+            fh.write(json.dumps(g) + "\n")
+    verdicts, states, trans, _ = vlib.run_trace_shards("TraceFeat.tla", "TraceFeat.cfg", [trace], tagp=prop, timeout=1800)
+    ok = 0
+    for vid, (v, msgs) in sorted(verdicts.items()):
+        if v == "pass":
+            ok += 1
+            continue
+        res.failures.append(dict(key=f"{prop} {vid.split('-')[0]} differs", what=f"{vid}: {msgs[0]}", name=vid,
+                                 replay=dict(property=prop, kind="c20", tier=tier, seed=seed, what=msgs)))
+    res.failures = res.failures[:10]
+    res.coverage = dict(states=states, transitions=trans, traces_validated_against_impl=ok, evaluations=len(lines), distinct_nontrivial=cases,
+                        builds=[n for n, _ in FEATURE_SETS], cases_per_build=cases,
+                        rule="a fixed corpus (channels 1/2/3/6, all five widths, block sizes 32..576, six signal kinds, non-experimental configurations over "
+                             "every section) is encoded by four builds of the library: no features, default, default+decode, default+decode+experimental; "
+                             "TraceFeat.tla fixes out[case] by the first build and rejects any other digest. distinct = corpus cases",
+                        samples=lines[:2], exhaustive=False)
+    res.assumptions = ["multi-thread cases are compared among the builds that have the par feature; C05 ties them to single-thread bytes",
+                       "TLA+ contributes only the statement of the property here (said openly in DESIGN.md)"]
+    return res
+
+
 # --------------------------------------------------------------------------- registry
 CHECKS = {}
 for _p in STREAM:
     CHECKS[_p] = check_stream
+CHECKS["C20"] = check_c20
+CHECKS["C10"] = check_c10
+CHECKS["C16"] = check_c16
 CHECKS["C02"] = check_c02
 CHECKS["C17"] = check_c17
 CHECKS["C18"] = check_comp
@@ -741,6 +879,12 @@ def replay(prop, path):
         r = check_stream(prop, payload.get("tier", "quick"), payload["seed"], only=payload["case"],
                          outdir=os.path.join(vlib.WORK, f"{prop}-replay"))
         return r
+    if kind == "c20":
+        return check_c20(prop, payload.get("tier", "quick"), payload.get("seed", 1))
+    if kind == "c10":
+        return check_c10(prop, payload.get("tier", "quick"), payload.get("seed", 1))
+    if kind == "c16":
+        return check_c16(prop, payload.get("tier", "quick"), payload.get("seed", 1))
     if kind == "c02":
         return check_c02(prop, payload.get("tier", "quick"), payload.get("seed", 1))
     if kind == "c17":
